@@ -7,7 +7,7 @@ L0="deterministic component simulation against a reference model with fault inje
 checks={
  "C01":("exploration","simhost","porcupine linearizability check of the recorded client history (writes/ReadIndex+ReadLocalNode on any replica) under loss, delay, reordering, partitions, transfers, crash+restart; no duplication", SIMHOST+" + porcupine"),
  "C02":("exploration","simhost","every entry delivered to any user state machine is compared with what any other replica applied at that index; gap-free increasing apply order; equal state at equal applied index; no two replicas hold different entries (terms) at an index both have durably committed; the code's own log/apply invariant panics are violations; shapes incl. a single voter with non-voting members and crashes biased into file system operations", SIMHOST),
- "C03":("exploration","simhost","leader per term ghost from white-box role peeks after every event; one vote per term across restarts from the frames that leave each replica", SIMHOST),
+ "C03":("exploration","simhost","leader per term ghost from white-box role peeks after every event; one vote per term across restarts from the frames that leave each replica (incl. votes visible before they are durable); a new leader must have the votes of a majority of its voters and witnesses; no campaign while a committed membership change is unapplied", SIMHOST),
  "C04":("exploration","simhost","every frame leaving a replica is checked against the durable shadow recorded when SaveRaftState returned; after crash+restart the recovered term/vote/last index are compared with what had been promised; restart must succeed", SIMHOST),
  "C05":("exploration","simhost","clients use registered sessions and retry timed-out proposals with the same series id on any replica under loss/duplication/leader changes/snapshots/restarts with a small session LRU; every write id must reach each state machine incarnation at most once, retries that complete must carry the result of that application, unregistered/evicted sessions must be Rejected and never applied", SIMHOST),
  "C06":("exploration","simhost","at the moment a ReadIndex completes on any replica its local applied index must be at least the highest durably backed commit index any replica had when the request was issued (ghost, monotone); a completed read must return a version >= that of every write of the key acknowledged before the read was invoked; under duplication/reordering/partitions (pairwise and group splits)/transfers/membership changes incl. shapes with non-voting members", SIMHOST),
@@ -22,7 +22,7 @@ checks={
  "C15":("exploration","l0","real sender side splitting -> real transport.Chunk receiver over SimFS with tape-chosen perturbations (drop, swap, duplicate, restart, interleaved senders/indexes, corrupt bytes, foreign ids, removed replica, GC tick placement, hostile file names), incl. exhaustive single perturbations of a fixed 5-chunk stream", L0),
  "C16":("exploration","simhost","crashes land between any two file system operations of snapshot save/receive/commit/compact; what a crash leaves in the snapshot directory is marked, and after the real start-up path only the recorded snapshot may remain (unflagged, file present); the replica must restart and is held to its promises (C04 ledger)", SIMHOST),
  "C17":("exploration","simhost","after the fault phase (loss, partitions, crashes, restarts, membership changes, transfers, quiesce) a fair fault-free schedule in which clients keep submitting requests must produce a leader, complete fresh proposals and reads and bring every member to the commit index within a stated tick budget; failures are diagnosed (cause tag) so that the two recorded findings are told apart from anything new", SIMHOST),
- "C18":("exploration","simhost","replicas whose own applied membership does not list them as voters must never be candidate/leader; explored over cluster shapes with non-voting members and witnesses", SIMHOST),
+ "C18":("exploration","simhost","replicas whose own applied membership does not list them as voters must never be candidate/leader; election and ReadIndex confirmation quorums are recomputed from the votes / echoes that actually left the voters and witnesses; witnesses never receive payloads and never serve reads; explored over cluster shapes with non-voting members and witnesses, group splits and promotions", SIMHOST),
  "C19":("exploration","l0","real entryLog+LogReader driven against a slice model of the logical log after every operation", L0),
  "C20":("exploration","simhost","seeded history, RequestSnapshot(Exported) at a random point, more history, loss of all hosts, tools.ImportSnapshot on every listed host with a tape-chosen member list (subset/fresh/single; invalid lists; damaged export directory), restart: membership must equal the list with unlisted old members removed, every replica must recover exactly the exported state, a leader must emerge and new proposals complete; refused imports must leave the disk byte-identical", SIMHOST),
 }
